@@ -42,4 +42,5 @@ m = {
     "not_applicable": na,
 }
 json.dump(m, open(os.path.join(here, 'MANIFEST.json'), 'w'), indent=1)
+subprocess.run(["/verif/bin/govc","names"],cwd="/repo")  # baseline of variable lists for rename tolerance (names.json)
 print("claimed:", [c['property_id'] for c in checks])
